@@ -319,3 +319,164 @@ Proof.
     injection H as <- <-. split; [reflexivity|]. apply (loc_expr_val _ _ EA).
 Qed.
 End Sound.
+
+(** ** one arithmetic bytecode instruction is simulated by its machine code.
+    [Rx]: the machine state represents the bytecode state modulo 2^w — tape cells at their offset
+    from the tape pointer, temporaries in their register or stack slot. *)
+From HPBF Require Import IO BCWf MachineProofs.
+Section Simulates.
+Variable w : Z.
+Hypothesis Hw : 0 <= w <= 64.
+Notation "a == b" := (eqm (2 ^ w) a b) (at level 70).
+
+Definition tmp_home (t : Z) : option xloc := home (Tmp t).
+
+Definition Rx (keep : Z -> bool) (s : bcst) (st : xst) : Prop :=
+  (forall k, xc st k == bc_mem s k) /\
+  (forall t h, 0 <= t -> keep t = true -> tmp_home t = Some h -> xval st h == tget (bc_tmps s) t).
+
+Definition no_memzero (l : loc) : bool := match l with MemZero _ => false | _ => true end.
+
+(** without read-and-clear operands the interpreter's two operand orders coincide *)
+Lemma binop_pure : forall op s d a b, no_memzero a = true -> no_memzero b = true ->
+  bc_binop w op s d a b = bc_write s d (op (fst (bc_read w s a)) (fst (bc_read w s b))).
+Proof.
+  intros op s d a b NA NB. unfold bc_binop.
+  destruct a as [ka|ka|ta|ca]; try discriminate; destruct b as [kb|kb|tb|cb]; try discriminate;
+    destruct (loc_eqb d _); reflexivity.
+Qed.
+
+Lemma loc_val_read : forall keep s st l, Rx keep s st -> no_memzero l = true ->
+  (forall t, l = Tmp t -> 0 <= t /\ keep t = true) ->
+  loc_val st l == fst (bc_read w s l).
+Proof.
+  intros keep s st l [RC RT] NM KT. destruct l as [k|k|t|c]; try discriminate; cbn [bc_read fst loc_val home].
+  - apply RC.
+  - destruct (KT t eq_refl) as [T0 KE]. destruct (t <? 0) eqn:E; [apply Z.ltb_lt in E; lia|].
+    assert (HH : tmp_home t = Some (match tmp_reg t with Some r => LReg r | None => LSlot t end))
+      by (unfold tmp_home; cbn [home]; rewrite E; destruct (tmp_reg t); reflexivity).
+    destruct (tmp_reg t) as [r|]; apply (RT t _ T0 KE HH).
+  - reflexivity.
+Qed.
+
+Lemma tmp_reg_inj : forall t t' r, 0 <= t -> 0 <= t' -> tmp_reg t = Some r -> tmp_reg t' = Some r -> t = t'.
+Proof.
+  intros t t' r T T' H H'. unfold tmp_reg in *.
+  set (regs := [12; 13; 14; 15; 6; 7; 2; 8; 9; 10; 11]) in *.
+  assert (ND : NoDup regs) by (subst regs; repeat constructor; cbn [List.In]; intuition discriminate).
+  assert (L : (Z.to_nat t < length regs)%nat) by (apply nth_error_Some; rewrite H; discriminate).
+  pose proof (proj1 (NoDup_nth_error _) ND (Z.to_nat t) (Z.to_nat t') L (eq_trans H (eq_sym H'))) as E. lia.
+Qed.
+
+Lemma tmp_home_inj : forall t t' h, 0 <= t -> 0 <= t' -> tmp_home t = Some h -> tmp_home t' = Some h -> t = t'.
+Proof.
+  intros t t' h T T' H H'. unfold tmp_home in *. cbn [home] in *.
+  destruct (t <? 0) eqn:E; [apply Z.ltb_lt in E; lia|]. destruct (t' <? 0) eqn:E'; [apply Z.ltb_lt in E'; lia|].
+  destruct (tmp_reg t) as [r|] eqn:R; destruct (tmp_reg t') as [r'|] eqn:R'; injection H as <-; try discriminate.
+  - injection H' as ->. eapply tmp_reg_inj; eassumption.
+  - injection H' as ->. reflexivity.
+Qed.
+
+Lemma tmp_home_not_cell : forall t k, tmp_home t <> Some (LCell k).
+Proof.
+  intros t k H. unfold tmp_home in H. cbn [home] in H. destruct (t <? 0); [discriminate|]. destruct (tmp_reg t); discriminate.
+Qed.
+
+Lemma mem_after_write : forall s d v k, dst_ok d = true ->
+  bc_mem (bc_write s d v) k = if loc_eqb d (Mem k) then v else bc_mem s k.
+Proof.
+  intros s d v k D. destruct d as [k'|k'|t|c]; try discriminate; cbn [bc_write loc_eqb].
+  - unfold bc_mem, bc_set_mem. cbn [bc_tape bc_ptr]. rewrite MachineProofs.tget_tset.
+    destruct (k' =? k) eqn:E.
+    + apply Z.eqb_eq in E. subst. rewrite Z.eqb_refl. reflexivity.
+    + apply Z.eqb_neq in E. destruct (bc_ptr s + k' =? bc_ptr s + k) eqn:E2; [apply Z.eqb_eq in E2; lia|reflexivity].
+  - reflexivity.
+Qed.
+
+Lemma tmp_after_write : forall s d v t, dst_ok d = true ->
+  tget (bc_tmps (bc_write s d v)) t = if loc_eqb d (Tmp t) then v else tget (bc_tmps s) t.
+Proof.
+  intros s d v t D. destruct d as [k'|k'|t'|c]; try discriminate; cbn [bc_write loc_eqb].
+  - reflexivity.
+  - unfold bc_set_tmp. cbn [bc_tmps]. rewrite MachineProofs.tget_tset. reflexivity.
+Qed.
+
+(** which temporaries the machine state still represents after the instruction: the destination,
+    and those that were represented and whose register the code may not clobber *)
+Definition keep_after (keep : Z -> bool) (live : Z) (d : loc) (t : Z) : bool :=
+  loc_eqb d (Tmp t) ||
+  (keep t && match tmp_reg t with Some r => negb (may_clobber live r) | None => true end).
+
+Theorem form_simulates : forall i live code keep s st d (op : Z -> Z -> Z) (a b : option loc),
+  form_ok w i live code = true ->
+  (* the instruction, its arithmetic and its operands *)
+  (match i with
+   | Add d' a' b' => d = d' /\ a = Some a' /\ b = Some b' /\ op = (fun x y => x + y)
+   | Sub d' a' b' => d = d' /\ a = Some a' /\ b = Some b' /\ op = (fun x y => x - y)
+   | Mul d' a' b' => d = d' /\ a = Some a' /\ b = Some b' /\ op = (fun x y => x * y)
+   | Copy d' a' => d = d' /\ a = Some a' /\ b = None /\ op = (fun x _ => x)
+   | _ => False
+   end) ->
+  dst_ok d = true -> (forall t, d = Tmp t -> 0 <= t) ->
+  (forall l t, (a = Some l \/ b = Some l) -> l = Tmp t -> 0 <= t /\ keep t = true) ->
+  Rx keep s st ->
+  forall v, v == op (match a with Some l => fst (bc_read w s l) | None => 0 end)
+                    (match b with Some l => fst (bc_read w s l) | None => 0 end) ->
+  Rx (keep_after keep live d) (bc_write s d v) (xrun w code st).
+Proof.
+  intros i live code keep s st d op a b OK SHAPE DOK DT SRC R v HV.
+  destruct (form_spec w i) as [[dst want]|] eqn:SP; [|unfold form_ok in OK; rewrite SP in OK; discriminate].
+  destruct (form_ok_sound w Hw st i live code dst want OK SP) as (_ & V & CU & SU & RU).
+  pose proof (form_spec_value w Hw st i dst want SP) as FV.
+  (* the destination holds v *)
+  assert (HD : home d = Some dst /\ xval (xrun w code st) dst == v).
+  { destruct i as [| | | | | | |d' a' b'|d' a' b'|d' a' b'|d' a']; try contradiction;
+      destruct SHAPE as (-> & -> & -> & ->); destruct FV as [HH FV]; (split; [exact HH|]); rewrite V, FV, HV.
+    - assert (NA : no_memzero a' = true /\ no_memzero b' = true).
+      { unfold form_spec in SP. destruct (home d'); [|discriminate].
+        destruct (loc_expr w a') eqn:EA; [|discriminate]. destruct (loc_expr w b') eqn:EB; [|discriminate].
+        split; [destruct a'; try reflexivity; discriminate|destruct b'; try reflexivity; discriminate]. }
+      rewrite (loc_val_read keep s st a' R (proj1 NA) (fun t E => SRC a' t (or_introl eq_refl) E)),
+              (loc_val_read keep s st b' R (proj2 NA) (fun t E => SRC b' t (or_intror eq_refl) E)). reflexivity.
+    - assert (NA : no_memzero a' = true /\ no_memzero b' = true).
+      { unfold form_spec in SP. destruct (home d'); [|discriminate].
+        destruct (loc_expr w a') eqn:EA; [|discriminate]. destruct (loc_expr w b') eqn:EB; [|discriminate].
+        split; [destruct a'; try reflexivity; discriminate|destruct b'; try reflexivity; discriminate]. }
+      rewrite (loc_val_read keep s st a' R (proj1 NA) (fun t E => SRC a' t (or_introl eq_refl) E)),
+              (loc_val_read keep s st b' R (proj2 NA) (fun t E => SRC b' t (or_intror eq_refl) E)). reflexivity.
+    - assert (NA : no_memzero a' = true /\ no_memzero b' = true).
+      { unfold form_spec in SP. destruct (home d'); [|discriminate].
+        destruct (loc_expr w a') eqn:EA; [|discriminate]. destruct (loc_expr w b') eqn:EB; [|discriminate].
+        split; [destruct a'; try reflexivity; discriminate|destruct b'; try reflexivity; discriminate]. }
+      rewrite (loc_val_read keep s st a' R (proj1 NA) (fun t E => SRC a' t (or_introl eq_refl) E)),
+              (loc_val_read keep s st b' R (proj2 NA) (fun t E => SRC b' t (or_intror eq_refl) E)). reflexivity.
+    - assert (NA : no_memzero a' = true).
+      { unfold form_spec in SP. destruct (home d'); [|discriminate].
+        destruct (loc_expr w a') eqn:EA; [|discriminate]. destruct a'; try reflexivity; discriminate. }
+      rewrite (loc_val_read keep s st a' R NA (fun t E => SRC a' t (or_introl eq_refl) E)). reflexivity. }
+  destruct HD as [HH HDV]. destruct R as [RC RT].
+  split.
+  - intros k. rewrite (mem_after_write s d v k DOK). destruct (loc_eqb d (Mem k)) eqn:E.
+    + destruct d as [k'|k'|t'|c]; try discriminate. cbn in E. apply Z.eqb_eq in E. subst k'.
+      cbn [home] in HH. injection HH as <-. exact HDV.
+    + rewrite (CU k); [apply RC|]. intros EQ. rewrite <- EQ in HH.
+      destruct d as [k'|k'|t'|c]; try discriminate.
+      * cbn [home] in HH. injection HH as ->. cbn in E. rewrite Z.eqb_refl in E. discriminate.
+      * exact (tmp_home_not_cell t' k HH).
+  - intros t h T0 KA HT. rewrite (tmp_after_write s d v t DOK). unfold keep_after in KA.
+    destruct (loc_eqb d (Tmp t)) eqn:E.
+    + destruct d as [k'|k'|t'|c]; try discriminate. cbn in E. apply Z.eqb_eq in E. subst t'.
+      unfold tmp_home in HT. rewrite HT in HH. injection HH as <-. exact HDV.
+    + cbn [orb] in KA. apply andb_prop in KA. destruct KA as [KE KC].
+      assert (NE : h <> dst).
+      { intros EQ. subst h. destruct d as [k'|k'|t'|c]; try discriminate.
+        - cbn [home] in HH. injection HH as <-. exact (tmp_home_not_cell t k' HT).
+        - assert (t = t') by (eapply tmp_home_inj; [exact T0|apply DT; reflexivity|exact HT|exact HH]).
+          subst t'. cbn in E. rewrite Z.eqb_refl in E. discriminate. }
+      rewrite <- (RT t h T0 KE HT).
+      unfold tmp_home in HT. cbn [home] in HT. destruct (t <? 0) eqn:TN; [discriminate|].
+      destruct (tmp_reg t) as [r|] eqn:TR; injection HT as <-; cbn [xval].
+      * apply RU; [intros EQ; apply NE; exact EQ|apply negb_true_iff; exact KC].
+      * apply SU. intros EQ. apply NE. exact EQ.
+Qed.
+End Simulates.
